@@ -209,6 +209,46 @@ def shapes_set():
     return {"id": "x-shapes", "roots": ["sroot"], "files": f, "meta": {"src": "names", "pos": "type", "cls": "shapes", "kind": "struct", "word": "*", "key": "shapes|extreme structures"}}
 
 
+def docs_set():
+    """documentation text is DSDL input too: comment lines of headers, fields, constants and service halves whose END or CONTENT could change the lexical
+    structure of a generated file: a trailing backslash (line splice of a `//` comment swallows the next line), the trigraph for a backslash, comment
+    delimiters of C / C++ / Python, string delimiters, escapes, template syntax, very long and indented lines"""
+    pay = ["ends in a backslash \\", "ends in the trigraph ??/", "closes */ early", "opens /* again", "has // inside", 'triple """ double', "triple ''' single",
+           "escapes \\u0041 \\N{DASH} \\x4 \\", "template {{ T }} {% if x %} {# c #}", "percent %s %d %%", "<tag> & \"quote\"", "hash # inside",
+           "   indented three blanks", "word " * 60, "#include <nothing.h>", "#define X 1", "*/ int injected; /*"]
+    doc = "".join("# %s\n" % p for p in pay)
+    fld = "".join("uint8 f%d  # %s\n" % (i, p) for i, p in enumerate(pay))
+    cst = "".join("uint8 K%d = %d  # %s\n" % (i, i, p) for i, p in enumerate(pay))
+    above = "".join("# %s\nuint8 g%d\n" % (p, i) for i, p in enumerate(pay))
+    f = {
+        "droot/Hdr.1.0.dsdl": doc + "uint8 x\n@sealed\n",
+        "droot/Fld.1.0.dsdl": fld + "@sealed\n",
+        "droot/Cst.1.0.dsdl": cst + "uint8 x\n@sealed\n",
+        "droot/Above.1.0.dsdl": above + "@sealed\n",
+        "droot/Uni.1.0.dsdl": doc + "@union\n" + fld + "@sealed\n",
+        "droot/Svc.1.0.dsdl": doc + fld + "@sealed\n---\n" + doc + cst + "uint8 r\n@sealed\n",
+        "droot/Dlm.1.0.dsdl": doc + fld + cst + "@extent 1024 * 8\n",
+        "droot/User.1.0.dsdl": "droot.Hdr.1.0 a  # ends in a backslash \\\ndroot.Uni.1.0[<=2] b  # ends in the trigraph ??/\n@sealed\n",
+    }
+    return {"id": "x-docs", "roots": ["droot"], "files": f, "meta": {"src": "names", "pos": "type", "cls": "docs", "kind": "struct", "word": "*", "key": "docs|documentation payloads"}}
+
+
+def shadow_set():
+    """a nested namespace that is spelled like a ROOT namespace (its own root or another one in play): an unqualified-from-the-root reference to
+    `root.x.T` written inside namespace `root.sub.root` or `other.root` is looked up in the inner namespace first by a language with nested scopes"""
+    f = {
+        "hroot/c/U.1.0.dsdl": "uint8 x\n@sealed\n",
+        "hroot/b/hroot/T.1.0.dsdl": "hroot.c.U.1.0 u\nuint8 y\n@sealed\n",           # a.b.a.T uses a.c.U
+        "hroot/b/hroot/S.1.0.dsdl": "hroot.c.U.1.0 q\n@sealed\n---\nhroot.c.U.1.0[<=2] r\n@sealed\n",
+        "hother/U.1.0.dsdl": "uint8 z\n@sealed\n",
+        "hroot/hother/Pad.1.0.dsdl": "uint8 p\n@sealed\n",                              # nested namespace named like the other root
+        "hroot/x/T.1.0.dsdl": "hother.U.1.0 o\n@sealed\n",                              # ... while a sibling refers into that other root
+        "hroot/x/W.1.0.dsdl": "@union\nhother.U.1.0 o\nhroot.c.U.1.0 c\n@sealed\n",
+    }
+    return {"id": "x-shadow", "roots": ["hroot", "hother"], "files": f,
+            "meta": {"src": "names", "pos": "namespace", "cls": "shadow", "kind": "struct", "word": "*", "key": "shadow|nested namespace spelled like a root namespace"}}
+
+
 def boundary_set():
     """array capacities at the edges of the length-prefix widths and primitives of every storage class, at byte-aligned and unaligned offsets:
     where option-dependent fast paths (whole-storage stores, bulk copies, capacity macros) change shape"""
@@ -1624,9 +1664,18 @@ def run(ctx):
     wide = wide_set()
     shp = shapes_set()
     bnd = boundary_set()
-    wr, sr, br = run_jobs(ctx, [mkjob(ctx, wide, [(cfg, m) for cfg in ("c", "cpp17", "py") for m in omodes], tool_matrix(full=False)),
-                                mkjob(ctx, shp, [(cfg, m) for cfg in ALL_CFGS + OPTION_CFGS for m in omodes], tools),
-                                mkjob(ctx, bnd, [(cfg, "ser") for cfg in ["c", "cpp14", "py"] + OPTION_CFGS], tool_matrix(full=False))])
+    dcs = docs_set()
+    shw = shadow_set()
+    wr, sr, br, dr, hr = run_jobs(ctx, [mkjob(ctx, wide, [(cfg, m) for cfg in ("c", "cpp17", "py") for m in omodes], tool_matrix(full=False)),
+                                        mkjob(ctx, shp, [(cfg, m) for cfg in ALL_CFGS + OPTION_CFGS for m in omodes], tools),
+                                        mkjob(ctx, bnd, [(cfg, "ser") for cfg in ["c", "cpp14", "py"] + OPTION_CFGS], tool_matrix(full=False)),
+                                        mkjob(ctx, dcs, [(cfg, "ser") for cfg in ALL_CFGS], tools),
+                                        mkjob(ctx, shw, [(cfg, m) for cfg in ALL_CFGS for m in omodes], tool_matrix(full=False))])
+    for xs, xr in ((dcs, dr), (shw, hr)):
+        if not xr["accepted"]:
+            raise MachineryFailure("the front end rejected the set %s: %s" % (xs["id"], xr["why"]))
+        camp.add(xs, xr)
+        ctx.distinct(xs["meta"]["key"])
     if not br["accepted"]:
         raise MachineryFailure("the front end rejected the set of boundary shapes: %s" % br["why"])
     camp.add(bnd, br)
